@@ -6,6 +6,7 @@ import (
 	"sort"
 
 	"k8s.io/apimachinery/pkg/api/errors"
+	"k8s.io/apimachinery/pkg/runtime"
 	ctrl "sigs.k8s.io/controller-runtime"
 	"sigs.k8s.io/controller-runtime/pkg/client"
 
@@ -16,6 +17,10 @@ const defaultRevisionLimit int32 = 10
 
 type archiveReconciler struct {
 	client client.Client
+	scheme *runtime.Scheme
+	// newObjectSlice is used to load the ObjectSlices referenced by a revision.
+	// When nil, only the objects inlined into the ObjectSet are considered.
+	newObjectSlice adapters.ObjectSliceFactory
 }
 
 func (a *archiveReconciler) Reconcile(ctx context.Context,
@@ -153,7 +158,7 @@ func (a *archiveReconciler) archiveAllLaterRevisions(
 func (a *archiveReconciler) intermediateRevisionCanBeArchived(
 	ctx context.Context, previousRevision, currentLatestRevision adapters.ObjectSetAccessor,
 ) (bool, error) {
-	latestRevisionObjects, err := newObjectSetGetter(currentLatestRevision).getObjects()
+	latestRevisionObjects, err := a.revisionObjects(ctx, currentLatestRevision)
 	if err != nil {
 		return false, err
 	}
@@ -187,6 +192,36 @@ func (a *archiveReconciler) intermediateRevisionCanBeArchived(
 		return isPaused, nil
 	}
 	return false, nil
+}
+
+// revisionObjects returns the identifiers of all objects of the given revision:
+// the objects inlined into the ObjectSet and the objects of all ObjectSlices it references.
+// A referenced ObjectSlice that can not be loaded is an error,
+// so a revision is never archived based on an incomplete object list.
+func (a *archiveReconciler) revisionObjects(
+	ctx context.Context, objectSet adapters.ObjectSetAccessor,
+) ([]objectIdentifier, error) {
+	objects, err := newObjectSetGetter(objectSet).getObjects()
+	if err != nil {
+		return nil, err
+	}
+	if a.newObjectSlice == nil {
+		return objects, nil
+	}
+
+	namespace := objectSet.ClientObject().GetNamespace()
+	for _, phase := range objectSet.GetPhases() {
+		for _, sliceName := range phase.Slices {
+			objectSlice := a.newObjectSlice(a.scheme)
+			if err := a.client.Get(ctx, client.ObjectKey{
+				Name: sliceName, Namespace: namespace,
+			}, objectSlice.ClientObject()); err != nil {
+				return nil, fmt.Errorf("getting ObjectSlice: %w", err)
+			}
+			objects = append(objects, objectIdentifiers(objectSlice.GetObjects(), namespace)...)
+		}
+	}
+	return objects, nil
 }
 
 func (a *archiveReconciler) ensurePaused(ctx context.Context, objectset adapters.ObjectSetAccessor) (bool, error) {
